@@ -11,7 +11,7 @@ from .c13 import PUNCT
 from trees import transform
 
 # how the tree of a case is obtained: API-built (token order / reversed child lists) or read by the export reader
-VIAS = [None, 'rev', 'export']
+VIAS = [None, 'rev', 'export', 'written']
 _via = [None]
 
 ID = 'C11'
@@ -275,7 +275,7 @@ def ref_substitute(mt, entries, with_pos):
 
 
 # ------------------------------------------------------------------ programs of token-editing operations
-PROGRAM_OPS = ['punct', 'ins_first', 'ins_last', 'ins_mid', 'del_first', 'del_last', 'subst']
+PROGRAM_OPS = ['punct', 'ins_first', 'ins_last', 'ins_mid', 'del_first', 'del_last', 'subst', 'filt']
 
 
 def apply_program_op(op, t, m):
@@ -306,6 +306,15 @@ def apply_program_op(op, t, m):
         leaf = [l for l in raw_leaves(t) if l.data['num'] == k][0]
         T.delete_terminal(t, leaf)
         return t, ref_delete(m, [k])
+    if op == 'filt':
+        # the length that counts is the CURRENT number of tokens: 'longer than n' keeps a tree of n tokens,
+        # 'shorter than n' too, 'equal to n - 1' too
+        r = t
+        for oper, val in (('gt', n), ('lt', n), ('eq', n - 1), ('eq', n + 1)):
+            r = transform.filter_by_length(r, **cli_options({'filteroperator': oper, 'filtervalue': val}))
+            if r is None:
+                raise AssertionError('filter_by_length %s %d drops a tree of %d tokens' % (oper, val, n))
+        return r, m
     if op == 'subst':
         entries = [(m.sid, 1), (m.sid, n + 1)]
         path = write_terminal_file(entries, True)
@@ -346,6 +355,7 @@ def file_entries(n):
     idx = list(range(-1, n + 3))
     singles = [[(1, i)] for i in idx] + [[(9, 1)]]
     pairs = [[(1, i), (1, j)] for i in idx for j in idx if i < j]
+    pairs += [[(1, j), (1, i)] for i in idx for j in idx if i < j and (i + j) % 3 == 0]     # lines not in ascending order
     dups = [[(1, 1), (1, 1)], [(1, 0), (1, 0)]]
     mixed = [[(9, 1), (1, 1)], [(1, n + 1), (9, 2)]]
     return [[]] + singles + pairs + dups + mixed
